@@ -1110,8 +1110,14 @@ func (vm *VirtualMachine) importModule(ctx context.Context, name string) (*objec
 	baseSP := vm.sp
 	code := vm.loadCode(module.Code())
 	vm.activateCode(vm.fp+1, 0, code)
-	// Restore the previous frame when done
-	defer vm.resumeFrame(baseFP, baseIP, baseSP)
+	// Restore the previous frame when done, also while a stack overflow panic
+	// from the module's code unwinds (sp is then past the end of the stack)
+	defer func() {
+		if vm.sp >= MaxStackDepth {
+			vm.sp = MaxStackDepth - 1
+		}
+		vm.resumeFrame(baseFP, baseIP, baseSP)
+	}()
 	// Evaluate the module code
 	if err := vm.eval(ctx); err != nil {
 		return nil, err
